@@ -1,7 +1,7 @@
 """C18 - each option has exactly its documented effect; entry points are equivalent.
 
 Proof side: Props/C18.lean (wiring theorems on the regenerated tables + spec-level effect theorems).
-Correspondence (worker environment: default only):
+Correspondence (worker environment: default; the Unmarshal side also under SONIC_USE_OPTDEC=1):
   optpair  the same call under Config c and under c with exactly one switch flipped; the Lean driver
            (Driver/Opts.lean, relM / relU) decides whether the two results stand in the relation the
            property names for that switch AND IN NOTHING ELSE; encoding/json is the reference where it
@@ -58,13 +58,19 @@ class C18(Spec):
                    "which sonic satisfies; encoding/json's own SetEscapeHTML differs there (DESIGN 8 #15, a C03 matter)"]
 
     def streams(self, tier, seed):
+        # the Unmarshal side also under the alternative decoder (the switches are the same Config bits there)
+        optdec = {"optdec": {"SONIC_USE_OPTDEC": "1"}}
         if tier == "quick":
             return [Stream("pair", "c18.pair", 3200, timeout=0.2),
                     Stream("entry", "c18.entry", 1200, timeout=0.2, use_model=False),
-                    Stream("words", "c18.words", 1500)]
+                    Stream("words", "c18.words", 1500),
+                    Stream("pair-optdec", "c18.pairu", 1600, envs=optdec, timeout=0.2),
+                    Stream("entry-optdec", "c18.entryu", 600, envs=optdec, timeout=0.2, use_model=False)]
         return [Stream("pair", "c18.pair", 800000, timeout=0.2),
                 Stream("entry", "c18.entry", 150000, timeout=0.2, use_model=False),
-                Stream("words", "c18.words", 20000)]
+                Stream("words", "c18.words", 20000),
+                Stream("pair-optdec", "c18.pairu", 250000, envs=optdec, timeout=0.2),
+                Stream("entry-optdec", "c18.entryu", 60000, envs=optdec, timeout=0.2, use_model=False)]
 
     # ------------------------------------------------------------------ model line
     def _tables(self):
@@ -178,8 +184,8 @@ class C18(Spec):
             elif op in ("froze", "setseq"):
                 if m is None or m == "unsupported" or sv == "unsupported":
                     out.append(("tie:option-words", "%s: sonic=%s model=%s" % (env, sv, m)))
-                elif op == "froze" and sv == "P:both_number_modes" and m == sv:
-                    continue
+                elif op == "froze" and m == "P:both_number_modes" and sv in (m, (model.get(env) or {}).get("resolved")):
+                    continue   # both number modes: the documented panic, or (repaired tree) UseNumber taking precedence
                 elif sv != m:
                     out.append(("option-word-%s" % op, "%s: sonic=%s model=%s" % (env, sv, m)))
                 if op == "froze" and s.get("nfields") not in (None, str(len(NAMES))):
@@ -228,7 +234,21 @@ class C18(Spec):
             if d["kind"] == "switch-SortMapKeys-m/KEYS-REQUOTED":
                 return has_tm_key and (cfg >> 3) & 1 == 1
             return False
-        return {"both_number_modes_panic": both_modes, "tm_map_keys_quoting_depends_on_sort": tm_keys}
+        def optdec_urc(d, params):
+            # SONIC_USE_OPTDEC=1: internal/decoder/optdec never reads _F_disable_urc (declared in optdec/decoder.go,
+            # used nowhere), so a lone surrogate escape still decodes to U+FFFD under UseUnicodeErrors
+            if d["kind"] != "switch-UseUnicodeErrors-u" or not d["detail"].startswith("optdec"):
+                return False
+            if "lone surrogate escape decoded without error" not in d["detail"]:
+                return False
+            try:
+                doc = bytes.fromhex(d["case"][5]).lower()
+                return NAMES[int(d["case"][1])] == "UseUnicodeErrors" and d["case"][3] == "u" and \
+                    any((b"\\ud" + t) in doc for t in (b"8", b"9", b"a", b"b", b"c", b"d", b"e", b"f"))
+            except (ValueError, IndexError):
+                return False
+        return {"both_number_modes_panic": both_modes, "tm_map_keys_quoting_depends_on_sort": tm_keys,
+                "optdec_ignores_use_unicode_errors": optdec_urc}
 
     # ------------------------------------------------------------------ shrinking
     def shrink_fields(self, case):
